@@ -11,10 +11,13 @@ EXPLANATION = ("X1 set_position stores (p / B, p % B) and position() returns cou
                "xof_many (cv, block, block_len, inner.counter, flags|ROOT, &mut buf[..full_blocks*B]) and advances the "
                "counter by the same full_blocks, fill_one_block bumps the counter and resets the offset exactly on the "
                "offset == B edge; D2x the xof_many fallback runs compress_xof once per 64-byte block with counter + 1 per "
-               "block. That the bytes equal S[p..p+n] is value-level and not decided.")
+               "block. Kernel side: the assembly compress_xof and xof_many (R1asm1, R1asmX) and the C intrinsics xof path (K4c, K5c, "
+               "STc, PB) are decided against the spec per output block: block k of a call is the root compression with "
+               "counter + k, written at out + 64k, and the counter arrays are handed over correctly between the 16/8/4/2/1 stages. "
+               "That the composition of all layers yields S[p..p+n] byte for byte is not decided as a whole.")
 TRUSTED = ["rustc nightly MIR", "mirfacts serialisation", "absint interval evaluator", "mirlib dominance/path computations"]
 ASSUMPTIONS = ["Platform kernels compute the spec compression for the counter they are given (C05)"]
-TECHNIQUE = "value-flow pattern rules + error-path write-freedom (reachability) + interval analysis of casts over MIR"
+TECHNIQUE = "value-flow pattern rules + error-path write-freedom (reachability) + interval analysis of casts over MIR; symbolic value numbering of the assembled XOF kernels; clang-AST rules for the C intrinsics XOF path"
 DESIGN_REF = "DESIGN.md section 2 (X1-X5, D2) and section 4 (C03)"
 
 
